@@ -1,7 +1,8 @@
 from .protocoltreenode import ProtocolTreeNode
-import unittest, time
+import unittest, time, threading
 class ProtocolEntity(object):
     __ID_GEN = 0
+    __ID_LOCK = threading.Lock()
 
     def __init__(self, tag):
         self.tag = tag
@@ -20,8 +21,11 @@ class ProtocolEntity(object):
         return int(time.time())
 
     def _generateId(self, short = False):
-        ProtocolEntity.__ID_GEN += 1
-        return str(ProtocolEntity.__ID_GEN) if short else str(int(time.time())) + "-" + str(ProtocolEntity.__ID_GEN)
+        # entities are composed by several threads (application threads, the network thread): each gets its own number
+        with ProtocolEntity.__ID_LOCK:
+            ProtocolEntity.__ID_GEN += 1
+            idNum = ProtocolEntity.__ID_GEN
+        return str(idNum) if short else str(int(time.time())) + "-" + str(idNum)
 
 
     def toProtocolTreeNode(self):
